@@ -39,6 +39,7 @@ QCTOR = {"on": "QOn", "valid": "QValid", "prev": "QPrev", "nprev": "QNPrev", "ne
          "nexton": "QNextOn", "first": "QFirst"}
 SIG_STOP = "seq:get_stop_point:last-two-points-excluded"
 SIG_PREV = "seq:get_prev_point:month-or-year-step-not-invertible"
+SIG_NEXT = "seq:get_next:month-or-year-step-depends-on-time-zone-of-start"
 
 
 # ---------------------------------------------------------------------------
@@ -51,7 +52,7 @@ def _configs(rng, tier):
         {"cal": "360day", "tz": "Z", "xdigits": 0},
         {"cal": "gregorian", "tz": "-0800", "xdigits": 2},
     ]
-    for _ in range(3 if tier == "quick" else 30):
+    for _ in range(3 if tier == "quick" else 20):
         cfgs.append({"cal": rng.choice(R.CALENDARS), "tz": rng.choice(["Z", "+0530", "-0800", "+01", "-1145", "+1300"]),
                      "xdigits": rng.choice([0, 0, 0, 2])})
     return cfgs
@@ -279,8 +280,9 @@ class SeqStream(Stream):
     coq_import = "From Cylc Require Import Model.IsoSeq."
     check_fn = "IsoSeq.check_case"
     show_fn = "IsoSeq.model_out"
-    n_hashseeds = 4
+    n_hashseeds = 8
     shard_size = 60
+    impl_timeout = 3000
     rule = ("ISO8601Sequence objects built from random recurrence expressions (formats R[n]/start/second, [R[n]/]start/intv, "
             "intv, R[n]//intv, intv/end, R[n]/intv[/end], R1 forms, relative and truncated points, min()), steps from minutes "
             "to weeks plus months/years, exclusion points / lists / exclusion sequences, context start/stop, 4 calendars, "
@@ -300,6 +302,11 @@ class SeqStream(Stream):
             # witness of finding 2: month step from the 31st: get_prev_point(20000229) is None
             {"cfg": g, "expr": "R/20000131T00Z/P1M", "ctx0": "20000101T0000Z", "ctx1": None, "N": 3,
              "queries": [["prev", 1, 0], ["nprev", 1, 0], ["prev", 2, 0], ["next", 0, 0], ["valid", 1, 0]], "kind": "clamped"},
+            # witness of finding 3: month step, start point written in another time zone than the cycle point
+            # time zone: stepping from a (re-parsed) cached point differs from iterating the recurrence
+            {"cfg": {"cal": "gregorian", "tz": "+0530", "xdigits": 0}, "expr": "20000130T1710-0800/P1M",
+             "ctx0": "20000101T0000+0530", "ctx1": None, "N": 3,
+             "queries": [["next", 0, 0], ["next", 1, 20000], ["valid", 2, 0]], "kind": "clamped"},
             # evictions: tiny caches, many distinct next/valid/first queries, then repeats
             {"cfg": g, "expr": "PT6H!T12", "ctx0": "20000101T0000Z", "ctx1": "20000110T0000Z", "N": 1,
              "queries": [[m, i, dm] for i in (3, 7, 2, 9, 3, 7, 12, 2) for m, dm in
@@ -310,7 +317,7 @@ class SeqStream(Stream):
         ]
 
     def gen(self, rng, tier):
-        per = 36 if tier == "quick" else 400
+        per = 36 if tier == "quick" else 250
         cases = []
         for cfg in _configs(rng, tier):
             for _ in range(per):
@@ -659,8 +666,11 @@ class SeqStream(Stream):
                 if "stop" in failure.split("query #")[-1][:12] and len(en) >= 1 and en[-1] in v["excl"] \
                         and (len(en) == 1 or en[-2] in v["excl"]):
                     return SIG_STOP
+                fwd, bwd = self._hyps(v, r["complete"])
+                if not fwd and all(a < b for a, b in zip(en, en[1:])):
+                    return SIG_NEXT
                 m = re.search(r"query #\d+ (n?prev)\(", failure)
-                if m and not self._hyps(v, r["complete"])[1]:
+                if m and not bwd:
                     return SIG_PREV
             except ValueError:
                 pass
